@@ -42,7 +42,7 @@ func runRLK(c *eng.Ctx, cf cfg) {
 
 	shareRows := func(s rshare) [][]uint64 { return gadgetRows(&s.GadgetCiphertext) }
 
-	for trial := 0; trial < 2; trial++ {
+	for trial := 0; trial < 3; trial++ {
 		lq, lp, w := e.drawEvkParams(trial)
 		evp := rlwe.EvaluationKeyParameters{LevelQ: &lq, LevelP: &lp, BaseTwoDecomposition: &w}
 		nrows := params.BaseRNSDecompositionVectorSize(lq, lp)
